@@ -139,22 +139,24 @@ Section Proofs.
   Lemma word_id_normalized (w : text) : word_id (normalized w) = word_id w.
   Proof. unfold SpellDecision.word_id. now rewrite normalized_idem. Qed.
 
-  (* ---------- contains_exact_word: exactly "some entry is spelt like the normalised word" ---------- *)
-  Lemma exact_sound D w : contains_exact_word D w = true -> exists e, In e D /\ canon e = normalized w.
+  (* ---------- contains_exact_word: exactly "some entry is spelt like the word, up to normalisation" ---------- *)
+  Lemma exact_sound D w : contains_exact_word D w = true -> exists e, In e D /\ normalized (canon e) = normalized w.
   Proof.
     unfold SpellDecision.contains_exact_word. destruct (lookup D _) as [f|] eqn:L; [|discriminate].
     intros H. apply text_eqb_eq in H. apply lookup_some in L as [L1 _]. eauto.
   Qed.
 
-  Lemma exact_complete D w e : dict_nodup D -> In e D -> canon e = normalized w -> contains_exact_word D w = true.
+  Lemma exact_complete D w e : dict_nodup D -> In e D -> normalized (canon e) = normalized w ->
+    contains_exact_word D w = true.
   Proof.
     intros ND Hin E. unfold SpellDecision.contains_exact_word.
-    rewrite (lookup_same_id D e) by (try assumption; now rewrite E).
-    rewrite E. apply text_eqb_refl.
+    rewrite (lookup_same_id D e); try assumption.
+    - rewrite E. apply text_eqb_refl.
+    - rewrite word_id_normalized. unfold SpellDecision.word_id. now rewrite E.
   Qed.
 
   Lemma exact_spec D w : dict_nodup D ->
-    (contains_exact_word D w = true <-> exists e, In e D /\ canon e = normalized w).
+    (contains_exact_word D w = true <-> exists e, In e D /\ normalized (canon e) = normalized w).
   Proof.
     intros ND. split; [apply exact_sound|]. intros (e & H1 & H2). eapply exact_complete; eassumption.
   Qed.
@@ -163,7 +165,8 @@ Section Proofs.
   Theorem accepts_spec D d w : dict_nodup D ->
     (accepts D d w = true <->
        (exists e, In e D /\ word_id (canon e) = word_id w /\ dialect_ok (edialect e) d = true) /\
-       (exists e', In e' D /\ (canon e' = normalized w \/ canon e' = normalized (to_lower w)))).
+       (exists e', In e' D /\ (normalized (canon e') = normalized w \/
+                               normalized (canon e') = normalized (to_lower w)))).
   Proof.
     intros ND. unfold SpellDecision.accepts, accept_facts, SpellDecision.get_word_metadata. split.
     - destruct (lookup D (word_id w)) as [e|] eqn:L; cbn [option_map]; [|discriminate].
@@ -182,20 +185,21 @@ Section Proofs.
   Proof. reflexivity. Qed.
 
   (* ---------- positive half: what is accepted ---------- *)
-  (* the canonical spelling of a listed, dialect-compatible, normalised entry *)
+  (* the canonical spelling of a listed, dialect-compatible entry — whatever characters it is stored with
+     (before ebb53b3 this needed `normalized (canon e) = canon e`: see exact_old_rejects_own_entry) *)
   Theorem canonical_accepted D d e : dict_nodup D -> In e D ->
-    dialect_ok (edialect e) d = true -> normalized (canon e) = canon e ->
+    dialect_ok (edialect e) d = true ->
     accepts D d (canon e) = true.
   Proof.
-    intros ND Hin Hd Hn. apply accepts_spec; [assumption|]. split.
+    intros ND Hin Hd. apply accepts_spec; [assumption|]. split.
     - exists e. auto.
-    - exists e. split; [assumption|]. left. now rewrite Hn.
+    - exists e. split; [assumption|]. now left.
   Qed.
 
   (* any spelling that lower-cases (and normalises) to the entry and has its id *)
   Theorem variant_accepted D d e w : dict_nodup D -> In e D ->
     dialect_ok (edialect e) d = true ->
-    word_id w = word_id (canon e) -> normalized (to_lower w) = canon e ->
+    word_id w = word_id (canon e) -> normalized (to_lower w) = normalized (canon e) ->
     accepts D d w = true.
   Proof.
     intros ND Hin Hd Hid Hl. apply accepts_spec; [assumption|]. split.
@@ -579,17 +583,19 @@ Section Proofs.
   Definition lower_case (c : text) : Prop := to_lower c = c.
 
   Theorem listed_accepted (HL : lower_fix) D d e src words sp w ls :
-    dict_nodup D -> In e D -> dialect_ok (edialect e) d = true -> normalized (canon e) = canon e ->
+    dict_nodup D -> In e D -> dialect_ok (edialect e) d = true ->
     In sp words -> get_content sp src = Ok w ->
     ( w = canon e
-      \/ (lower_case (canon e) /\ w = capitalise (canon e) /\ Forall case_regular (firstn 1 (canon e)))
-      \/ (lower_case (canon e) /\ w = upper (canon e) /\ Forall case_regular (canon e)) ) ->
+      \/ (normalized (canon e) = canon e /\ lower_case (canon e) /\ w = capitalise (canon e) /\
+          Forall case_regular (firstn 1 (canon e)))
+      \/ (normalized (canon e) = canon e /\ lower_case (canon e) /\ w = upper (canon e) /\
+          Forall case_regular (canon e)) ) ->
     lint_doc D d src words = Ok ls ->
     lint_word D d src sp = Ok None /\ forall l, In l ls -> sl_span l = sp -> False.
   Proof.
-    intros ND Hin Hd Hn Hsp G Hw HL'.
+    intros ND Hin Hd Hsp G Hw HL'.
     assert (accepts D d w = true) as A.
-    { destruct Hw as [->|[(Hlc & -> & Hr)|(Hlc & -> & Hr)]].
+    { destruct Hw as [->|[(Hn & Hlc & -> & Hr)|(Hn & Hlc & -> & Hr)]].
       - now apply canonical_accepted.
       - apply (variant_accepted D d e); try assumption.
         + unfold SpellDecision.word_id. rewrite normalized_capitalise, Hn by assumption.
@@ -709,4 +715,19 @@ Proof.
   split; [reflexivity|]. split; [vm_compute; reflexivity|]. split; [discriminate|]. split.
   - intros l [<-|[]]. now left.
   - cbn. intros [H|[H|[]]]; discriminate.
+Qed.
+
+(* ---------- history (FC07a, fixed by ebb53b3): with the comparison `canonical_spelling == normalized(word)` an entry
+   stored with a typographic apostrophe did not match itself; the current comparison accepts it (canonical_accepted
+   needs no premise about the entry's characters any more) ---------- *)
+Definition w_blorfs_curly : text := [98;108;111;114;102;8217;115]%N.          (* blorf’s, U+2019 *)
+Example exact_old_rejects_own_entry :
+  let D := [mkentry w_blorfs_curly None] in
+  dict_nodup ascii_lc ascii_is_lower D /\
+  contains_exact_word_old ascii_lc ascii_is_lower D w_blorfs_curly = false /\
+  contains_exact_word ascii_lc ascii_is_lower D w_blorfs_curly = true /\
+  accepts ascii_lc ascii_is_lower D American w_blorfs_curly = true.
+Proof.
+  cbv zeta. split; [unfold dict_nodup; vm_compute; repeat constructor; cbn; intuition discriminate|].
+  repeat split; vm_compute; reflexivity.
 Qed.
